@@ -60,7 +60,7 @@ EventStep(ev) ==
   \/ /\ ev.e = "filter" /\ KnownSync(ev.p)
      /\ PubAt(PubG(ev.p), "filter") /\ Top(PubG(ev.p)).pub = ev.p /\ Filter(PubG(ev.p), ev.r, ev.res) /\ UNCHANGED toks
   \/ /\ ev.e = "hstart"
-     /\ \E g \in Gs : /\ InvAt(g, "hstart") /\ Top(g).pub = ev.p /\ Top(g).async = ev.async
+     /\ \E g \in Gs : /\ stack[g] # <<>> /\ Top(g).k = "inv" /\ Top(g).pub = ev.p /\ Top(g).async = ev.async
                       /\ (~ev.async => KnownSync(ev.p) /\ g = PubG(ev.p))
                       /\ ObsHandlerStart(g)
                       /\ toks' = (g :> Append(Tok(g), ev.tok)) @@ toks
